@@ -903,17 +903,9 @@ func (wallet *Wallet) ProcWalletSetPasswd(Passwd *types.ReqWalletSetPasswd) erro
 	if !isValidPassWord(Passwd.NewPass) {
 		return types.ErrInvalidPassWord
 	}
-	//保存钱包的锁状态，需要暂时的解锁，函数退出时再恢复回去
-	tempislock := atomic.LoadInt32(&wallet.isWalletLocked)
-	//wallet.isWalletLocked = false
-	atomic.CompareAndSwapInt32(&wallet.isWalletLocked, 1, 0)
-
-	defer func() {
-		//wallet.isWalletLocked = tempislock
-		atomic.CompareAndSwapInt32(&wallet.isWalletLocked, 0, tempislock)
-	}()
-
 	// 钱包已经加密需要验证oldpass的正确性
+	// (the old password is verified before the wallet is temporarily unlocked, so that a
+	// failed change never makes a locked wallet look unlocked to concurrent readers)
 	if len(wallet.Password) == 0 && wallet.EncryptFlag == 1 {
 		isok := wallet.walletStore.VerifyPasswordHash(Passwd.OldPass)
 		if !isok {
@@ -926,6 +918,16 @@ func (wallet *Wallet) ProcWalletSetPasswd(Passwd *types.ReqWalletSetPasswd) erro
 		walletlog.Error("ProcWalletSetPasswd Oldpass err!")
 		return types.ErrVerifyOldpasswdFail
 	}
+
+	//保存钱包的锁状态，需要暂时的解锁，函数退出时再恢复回去
+	tempislock := atomic.LoadInt32(&wallet.isWalletLocked)
+	//wallet.isWalletLocked = false
+	atomic.CompareAndSwapInt32(&wallet.isWalletLocked, 1, 0)
+
+	defer func() {
+		//wallet.isWalletLocked = tempislock
+		atomic.CompareAndSwapInt32(&wallet.isWalletLocked, 0, tempislock)
+	}()
 
 	//使用新的密码生成passwdhash用于下次密码的验证
 	newBatch := wallet.walletStore.NewBatch(true)
